@@ -1,7 +1,7 @@
 CONSTANTS
-  MaxToks = 3
-  Big = FALSE
-  NRand = 4000
-  Part = "all"
+  MaxToks = 4
+  Big = TRUE
+  NRand = 120000
+  Part = "rest"
 SPECIFICATION Spec
 INVARIANTS WF ImplIsRef NoSpoofInv RightMostInv ResultShapeInv
